@@ -1,5 +1,10 @@
 #!/bin/bash
-# tools/seedretest.sh <nproc> <names...> : re-runs the property's quick check against each seeded change (final checks)
+# tools/seedretest.sh <nproc> <names...> : re-runs the property's quick check against each seeded change (final checks);
+# several instances may run in parallel on the same list (a marker directory makes each seed run once)
 np=$1; shift
 cd /verif
-for name in "$@"; do id=${name%%-*}; VERIF_NPROC=$np tools/seedtest.sh /verif/seeded/$name $name $id >> /tmp/seedretest.log 2>&1; done
+mkdir -p /tmp/retest_done
+for name in "$@"; do
+  mkdir /tmp/retest_done/$name 2>/dev/null || continue
+  id=${name%%-*}; VERIF_NPROC=$np tools/seedtest.sh /verif/seeded/$name $name $id >> /tmp/seedretest.log 2>&1
+done
